@@ -27,6 +27,11 @@ Local Open Scope nat_scope.
      sched_realises_every_order   conversely every permutation is the completion order of some maximal execution
      completion_order_refuted     the variant that adds the partial sums in completion order (a shared accumulator:
                                   seeded mutation C16-4) has two maximal executions with different binary64 results
+     shared_result_in_completion_order, shared_exact, shared_two_workers_float
+                                  what that variant computes, exactly: the partial sums added from 0 in ITS completion
+                                  order (a permutation); over a ring that is still the sequential dot (exact arithmetic
+                                  cannot see the defect); over binary64 with t <= 2 it is bit-identical to pardot on all
+                                  data (the defect needs >= 3 workers and partial sums that round)
      pardot_any_workers_total     for every t >= 1 and every length: every slice is in range, the result is a value
      pardot_index_arith_in_range  every usize the spawn loop computes is <= len (no wrap-around in any profile)
      pardot_outcomes              complete outcome table: size mismatch -> Guard (whatever t); t = 0 -> DivZero
@@ -42,7 +47,7 @@ Local Open Scope nat_scope.
                                   the sequential dot (bit for bit).
    --------------------------------------------------------------------------------------------------------------- *)
 From OV Require Import Model.ParSched Proofs.ParSched Proofs.ParSchedOrder Proofs.ParSchedReal Proofs.ParSchedConfl
-  Proofs.ParSchedRefuted Proofs.ParSchedFloat Proofs.ParSchedTop Proofs.ParSchedMore Proofs.ParSchedWorkers.
+  Proofs.ParSchedRefuted Proofs.ParSchedFloat Proofs.ParSchedTop Proofs.ParSchedMore Proofs.ParSchedWorkers Proofs.ParSchedShared.
 
 Theorem sched_deterministic : forall (A : Arith) (v w : list A) t s0 n s,
   par_program v w t = Ok s0 -> steps v w t n s0 s -> terminal v w t s ->
@@ -174,6 +179,46 @@ Check completion_order_refuted :
     exec_shared v w t sch2 (shared_init t) = Some s2 /\ terminal_shared v w t s2 /\ s_main s2 = MRet (Ok r2) /\
     r1 <> r2.
 Print Assumptions completion_order_refuted.
+Print Assumptions audit_separator.
+
+Theorem shared_result_in_completion_order : forall (A : Arith) (v w : list A) t sch s,
+  1 <= t -> length v = length w ->
+  exec_shared v w t sch (shared_init t) = Some s -> terminal_shared v w t s ->
+  Permutation (completions_shared v w t sch (shared_init t)) (seq 0 t) /\
+  s_main s = MRet (Ok (fold_left (fun acc k => add acc (dot_raw (slice_of v t k) (slice_of w t k)))
+                                 (completions_shared v w t sch (shared_init t)) zero)).
+Proof. intros A v w t sch s Ht Hl HE HT. exact (shared_result_exec v w t Ht Hl sch s HE HT). Qed.
+Check shared_result_in_completion_order : forall (A : Arith) (v w : list A) t sch s,
+  1 <= t -> length v = length w ->
+  exec_shared v w t sch (shared_init t) = Some s -> terminal_shared v w t s ->
+  Permutation (completions_shared v w t sch (shared_init t)) (seq 0 t) /\
+  s_main s = MRet (Ok (fold_left (fun acc k => add acc (dot_raw (slice_of v t k) (slice_of w t k)))
+                                 (completions_shared v w t sch (shared_init t)) zero)).
+Print Assumptions shared_result_in_completion_order.
+
+Example shared_result_in_completion_order_nonvacuous :
+  1 <= 3 /\ length cx_v = length cx_w /\
+  (exists s, exec_shared cx_v cx_w 3 cx_sch2 (shared_init 3) = Some s /\ terminal_shared cx_v cx_w 3 s) /\
+  completions_shared cx_v cx_w 3 cx_sch2 (shared_init 3) = [0; 2; 1].
+Proof. exact cx_shared_execution. Qed.
+
+Theorem shared_exact : forall (A : Arith), RingLaws A -> forall (v w : list A) t sch s,
+  1 <= t -> length v = length w ->
+  exec_shared v w t sch (shared_init t) = Some s -> terminal_shared v w t s -> s_main s = MRet (dot v w).
+Proof. intros A RL v w t sch s Ht Hl HE HT. exact (shared_exact_exec RL v w t sch s Ht Hl HE HT). Qed.
+Check shared_exact : forall (A : Arith), RingLaws A -> forall (v w : list A) t sch s,
+  1 <= t -> length v = length w ->
+  exec_shared v w t sch (shared_init t) = Some s -> terminal_shared v w t s -> s_main s = MRet (dot v w).
+Print Assumptions shared_exact.
+
+Theorem shared_two_workers_float : forall (v w : list AF) t sch s, 1 <= t -> t <= 2 -> length v = length w ->
+  exec_shared (A := AF) v w t sch (shared_init t) = Some s -> terminal_shared v w t s ->
+  s_main s = MRet (pardot (A := AF) t v w).
+Proof. intros v w t sch s Ht Ht2 Hl HE HT. exact (shared_two_workers_float_exec v w t sch s Ht Ht2 Hl HE HT). Qed.
+Check shared_two_workers_float : forall (v w : list AF) t sch s, 1 <= t -> t <= 2 -> length v = length w ->
+  exec_shared (A := AF) v w t sch (shared_init t) = Some s -> terminal_shared v w t s ->
+  s_main s = MRet (pardot (A := AF) t v w).
+Print Assumptions shared_two_workers_float.
 Print Assumptions audit_separator.
 
 Theorem pardot_any_workers_total : forall (A : Arith) t (v w : list A), 1 <= t -> length v = length w ->
